@@ -6,6 +6,9 @@ T="deterministic simulation with fault injection (seeded scheduler + clock + fau
 claimed={
 'C07':dict(ref="4/C07",text="Seeded deterministic simulation of every lib/mr entry point under a controlled scheduler (all goroutine interleavings at synchronisation operations are tape-decided), with cancel/panic/context faults drawn from the fault tape; oracle = exactly-once/at-most-once bookkeeping, worker bound, allowed-outcome set derived from the stamped history, and task-table leak detection after quiescence. Sampling, not proof."),
 'C10':dict(ref="4/C10",text="Seeded histories of SetTimer/MoveTimer/RemoveTimer/Drain/Stop at mid-tick instants on the real wheel driven by its real ticker over the simulated clock (1..10 slots, delays up to 3.5 revolutions); oracle = reference map key -> (value, due tick) compared tick-exactly with the callbacks' virtual time stamps; long-run class drives SafeMap through its compaction thresholds. Sampling, not proof."),
+'C11':dict(ref="4/C11",level="fault_enumeration",text="Every transaction case of a finite space (0..3 statements x body ending nil/error/panic at statement k x driver fault at open/begin/each exec/commit/rollback x body ignoring the exec error x Transact/TransactCtx) is enumerated round-robin by seed on a fresh connection over a recording fake database/sql driver inside the simulator; oracle = Begin/Commit/Rollback counts and returned error per case. Row mapping rides along as generated input (struct shapes via reflect.StructOf, column permutations, extra/missing columns, 0/1/3 rows, strict/partial) against a by-name reference."),
+'C14':dict(ref="4/C14",text="Seeded histories of Pick/Done by 1-4 simulated callers over 1..8 stub connections with drawn latency/error profiles and spacing (0..30s) on the simulated clock; per-step invariants (picked in ready set, success in [0,1000] and moving in the right direction, lag within observed latencies, inflight = picks - completions) plus scripted health and starvation scenarios with statistically safe margins. Sampling, not proof."),
+'C19':dict(ref="4/C19",text="Seeded record/size/clock histories through the real RotateLogger (worker and post-rotate goroutines, real files) under the daily and the size rule on the simulated calendar; directory and file contents inspected at quiescence after every write: every record present once and in order in current file or exactly one backup unless that backup was legitimately removed, size bound, deletions only of outdated/excess backups. Disk faults are not injected (no seam). Sampling, not proof."),
 }
 na={'C03':'pure function of (route table, method, path): no schedule, clock, fault or shared mutable state for a simulator to own',
 'C05':'pure function of (struct type, document): nothing for deterministic simulation to decide',
